@@ -100,7 +100,8 @@ def streams(ctx):
                  model_ops=lambda ops, impl: ["# " + o for o in ops], timeout=1500,
                  classify=lambda op, r: op.split()[0])
     from . import c08leaf
-    return [st1, st2, cli_stream(ctx)] + c08leaf.streams(ctx) + p2loop.c08_streams(ctx)
+    from . import c08hard
+    return [st1, st2, cli_stream(ctx)] + c08leaf.streams(ctx) + p2loop.c08_streams(ctx) + c08hard.streams(ctx)
 
 
 def cli_stream(ctx):
